@@ -453,6 +453,11 @@ def enc_test(case):
       ' '.join(enc_diagrun(d) for d in tdiags))
 
 
+def core_tokens(tokens):
+  """records + executor call log only (no test-diagnoser / callback / plug events, no instance tokens)"""
+  return [t for t in tokens if not (t.startswith('eT') or t.startswith('eCB') or t.startswith('eP') or t.startswith('I'))]
+
+
 def clean(s):
   return ' '.join(s.split())
 
